@@ -341,6 +341,10 @@ func c03GenPeriod(r *verifh.Rng) verifh.Section {
 	if align == 1 {
 		tz = r.Pick(0, 20700, -34200, 3600, 43200) // zone offset of time.Local in seconds (Align() adds it to the unix time)
 	}
+	nopt := align // number of Align() options handed to the constructor (repeating the option changes nothing)
+	if align == 1 && r.Chance(1, 3) {
+		nopt = r.Range(2, 3)
+	}
 	rtype := "node"
 	if r.Chance(1, 12) {
 		// a store client of a type getRedis does not know: every call ends in an error before anything is sent
@@ -360,7 +364,7 @@ func c03GenPeriod(r *verifh.Rng) verifh.Section {
 			}
 		}
 	}
-	return verifh.Section{Cfg: fmt.Sprintf("kind=period quota=%d period=%d align=%d nlim=%d tz=%d npre=%d rtype=%s", quota, period, align, nlim, tz, npre, rtype), Ops: ops}
+	return verifh.Section{Cfg: fmt.Sprintf("kind=period quota=%d period=%d align=%d nlim=%d tz=%d npre=%d rtype=%s nopt=%d", quota, period, align, nlim, tz, npre, rtype, nopt), Ops: ops}
 }
 
 func c03GenToken(r *verifh.Rng) verifh.Section {
@@ -920,12 +924,17 @@ func c03Period(mr *miniredis.Miniredis, store *redis.Redis, cfg verifh.Cfg) (fun
 	prefix := pre(0)
 	align := cfg.Int("align", 0) == 1
 	lims := make([]*PeriodLimit, nlim)
+	nopt := cfg.Int("nopt", cfg.Int("align", 0))
 	for i := range lims {
-		if align {
-			lims[i] = NewPeriodLimit(cfg.Int("period", 1), cfg.Int("quota", 1), store, pre(i), Align())
-		} else {
-			lims[i] = NewPeriodLimit(cfg.Int("period", 1), cfg.Int("quota", 1), store, pre(i))
+		// every shape of the option list: absent, one Align(), the option repeated
+		var opts []PeriodOption
+		for q := 0; q < nopt; q++ {
+			opts = append(opts, Align())
 		}
+		if i%2 == 1 && nopt == 0 {
+			opts = []PeriodOption{} // empty, non-nil variadic
+		}
+		lims[i] = NewPeriodLimit(cfg.Int("period", 1), cfg.Int("quota", 1), store, pre(i), opts...)
 	}
 	oneP := func(j int, k string, f func() (int, error)) string {
 		c03ResetTrips()
